@@ -4,6 +4,7 @@ import (
 	"fmt"
 	"go/ast"
 	"go/parser"
+	"go/token"
 	"go/types"
 	"os"
 	"path/filepath"
@@ -35,6 +36,7 @@ type Engine struct {
 	loadErrs []string
 	contractFiles []string
 	macroSpecs bool
+	fieldIDs map[string]int
 }
 
 type WriteSet struct {
@@ -56,7 +58,7 @@ func LoadEngine(repo string, patterns []string, overlay map[string][]byte) (*Eng
 	e := &Engine{repo: repo, pkgs: pkgs, spkgs: map[string]*ssa.Package{}, tpkgs: map[string]*types.Package{}, cs: NewContracts(),
 		strIDs: map[string]string{}, tagIDs: map[string]int{}, callOrd: map[string]map[ssa.Instruction]int{}, wsMemo: map[*ssa.Function]*WriteSet{},
 		wsBusy: map[*ssa.Function]bool{}, loopMemo: map[*ssa.Function]map[*ssa.BasicBlock]int{}, fcFunc: map[*FuncContract]*ssa.Function{},
-		funcFC: map[*ssa.Function]*FuncContract{}, methFC: map[string]*FuncContract{}}
+		funcFC: map[*ssa.Function]*FuncContract{}, methFC: map[string]*FuncContract{}, fieldIDs: map[string]int{}}
 	packages.Visit(pkgs, nil, func(p *packages.Package) {
 		for _, er := range p.Errors {
 			if strings.HasPrefix(p.PkgPath, modulePath) {
@@ -104,6 +106,7 @@ func LoadEngine(repo string, patterns []string, overlay map[string][]byte) (*Eng
 	if len(e.loadErrs) > 0 {
 		return e, fmt.Errorf("contract errors: %s", strings.Join(e.loadErrs, "; "))
 	}
+	e.macroSpecs = os.Getenv("GOVC_MACRO") != ""
 	e.bindContracts()
 	return e, nil
 }
@@ -165,6 +168,17 @@ func (e *Engine) bindContracts() {
 		if fc.Extern {
 			// key: [alias.]Iface.Method or Struct.field
 			parts := strings.Split(fc.Key, ".")
+			if len(parts) == 2 {
+				// alias.Func: a package-level function of another package
+				pp := ""
+				if m := e.cs.Imports[fc.PkgPath]; m != nil {
+					pp = m[parts[0]]
+				}
+				if pp != "" {
+					e.methFC[pp+"::"+parts[1]] = fc
+					continue
+				}
+			}
 			if len(parts) == 3 {
 				pp := ""
 				if m := e.cs.Imports[fc.PkgPath]; m != nil {
@@ -215,6 +229,12 @@ func (e *Engine) funcOfContract(fc *FuncContract) *ssa.Function { return e.fcFun
 
 // contractOfMethod: extern contract for an interface method; keyed by the package that declares the interface type.
 func (e *Engine) contractOfMethod(m *types.Func, recvT types.Type) *FuncContract {
+	if os.Getenv("GOVC_DEBUG") != "" {
+		fmt.Fprintf(os.Stderr, "contractOfMethod %s recv=%s keys=%d\n", m.FullName(), recvT.String(), len(e.methFC))
+		for k := range e.methFC {
+			fmt.Fprintln(os.Stderr, "   ", k)
+		}
+	}
 	if n, ok := recvT.(*types.Named); ok && n.Obj().Pkg() != nil {
 		if fc, ok := e.methFC[n.Obj().Pkg().Path()+"::"+n.Obj().Name()+"."+m.Name()]; ok {
 			return fc
@@ -461,16 +481,22 @@ func (e *Engine) contractWrites(ws *WriteSet, fc *FuncContract) {
 	for _, a := range fc.Assigns {
 		// all(T.f) or ghost name or location expression: approximate by key
 		if ce, ok := a.Expr.(*ast.CallExpr); ok && identName(ce.Fun) == "all" {
-			k, s := e.allKey(fc.PkgPath, ce)
-			if k != "" {
-				ws.Keys[k] = true
-				ws.Sorts[k] = s
+			if ks := e.allKeysOf(fc.PkgPath, ce); len(ks) > 0 {
+				for k, s := range ks {
+					ws.Keys[k] = true
+					ws.Sorts[k] = s
+				}
 				continue
 			}
 		}
 		if id, ok := a.Expr.(*ast.Ident); ok {
 			if _, isG := e.cs.Ghosts[id.Name]; isG {
 				ws.Ghosts[id.Name] = true
+				continue
+			}
+			if id.Name == "syncmaps" {
+				ws.Keys["MD|sync.Map"], ws.Keys["MV|sync.Map|$tag"], ws.Keys["MV|sync.Map|$val"] = true, true, true
+				ws.Sorts["MD|sync.Map"], ws.Sorts["MV|sync.Map|$tag"], ws.Sorts["MV|sync.Map|$val"] = "Bool", "Int", "Int"
 				continue
 			}
 		}
@@ -480,9 +506,10 @@ func (e *Engine) contractWrites(ws *WriteSet, fc *FuncContract) {
 }
 
 // allKey resolves all(T.f.g) to a heap array key.
-func (e *Engine) allKey(pkgPath string, ce *ast.CallExpr) (string, string) {
+func (e *Engine) allKeysOf(pkgPath string, ce *ast.CallExpr) map[string]string {
+	out := map[string]string{}
 	if len(ce.Args) != 1 {
-		return "", ""
+		return out
 	}
 	var parts []string
 	ex := ce.Args[0]
@@ -498,7 +525,7 @@ func (e *Engine) allKey(pkgPath string, ce *ast.CallExpr) (string, string) {
 		break
 	}
 	if len(parts) < 2 {
-		return "", ""
+		return out
 	}
 	pkg := e.tpkgs[pkgPath]
 	var tn types.Object
@@ -518,15 +545,26 @@ func (e *Engine) allKey(pkgPath string, ce *ast.CallExpr) (string, string) {
 		}
 	}
 	if tn == nil {
-		return "", ""
+		return out
 	}
 	path := strings.Join(rest, ".")
 	for _, l := range leaves(tn.Type()) {
-		if l.Path == path {
-			return "F|" + typeKey(tn.Type()) + "|" + path, l.Sort
+		if l.Path == path || strings.HasPrefix(l.Path, path+".") {
+			out["F|"+typeKey(tn.Type())+"|"+l.Path] = l.Sort
 		}
 	}
-	return "", ""
+	if len(out) > 0 {
+		return out
+	}
+	if n, ok := tn.Type().(*types.Named); ok && n.Obj().Pkg() != nil && len(rest) == 1 {
+		if m := e.cs.GhostFields[n.Obj().Pkg().Path()+"."+n.Obj().Name()]; m != nil {
+			if _, ok := m[rest[0]]; ok {
+				out["F|"+typeKey(tn.Type())+"|$"+rest[0]] = "Int"
+				return out
+			}
+		}
+	}
+	return out
 }
 
 // staticLoc classifies the target of a store: kind "" = local cell, "F|"/"E|" heap; ok=false unknown.
@@ -591,17 +629,32 @@ const preamble = `(set-logic ALL)
 (declare-fun bvshl_u (Int Int) Int)
 (declare-fun bvshr_u (Int Int) Int)
 (declare-fun maplen ((Array Int Bool) Int) Int)
+(declare-fun pow2i (Int) Int)
+(assert (= (pow2i 0) 1))
+(assert (= (pow2i 1) 2))
+(assert (= (pow2i 63) 9223372036854775808))
+(assert (= (pow2i 64) 18446744073709551616))
+(declare-fun hash_Sum (Int) Int)
+(declare-fun hash_sha256 (Int) Int)
+(declare-fun hash_SumTruncated (Int) Int)
 (declare-fun timeround (Int Int) Int)
 (declare-fun unixnano (Int) Int)
 (declare-fun unixsec (Int) Int)
 (declare-fun unixmilli (Int) Int)
 (declare-fun timeofunix (Int Int) Int)
+(declare-fun sidx (Int Int) Int)
+(assert (forall ((o Int) (i Int)) (! (= (sidx o i) (+ o i)) :pattern ((sidx o i)))))
+(declare-fun iaddr (Int Int) Int)
+(declare-fun iaddr_base (Int) Int)
+(declare-fun iaddr_fld (Int) Int)
+(assert (forall ((b Int) (f Int)) (! (and (= (iaddr_base (iaddr b f)) b) (= (iaddr_fld (iaddr b f)) f) (not (= (iaddr b f) 0))) :pattern ((iaddr b f)))))
 (declare-sort Fuel 0)
 (declare-fun FS (Fuel) Fuel)
 (declare-const FZ Fuel)
 (declare-const alloc0 (Array Int Bool))
 (declare-const locks0 (Array Int Int))
 (assert (= (blen 0) 0))
+(assert (forall ((x Int)) (! (>= (blen x) 0) :pattern ((blen x)))))
 `
 
 func (x *Exec) script(st *State, goal string) string {
@@ -611,11 +664,28 @@ func (x *Exec) script(st *State, goal string) string {
 		sb.WriteString(g)
 		sb.WriteByte('\n')
 	}
+	if x.fc != nil && x.fc.Checks["allocwf"] {
+		// heap well-formedness: every reference stored in the entry heap is allocated at entry
+		for _, key := range sortedKeys(x.refArrays) {
+			name := "|H_" + smtName(key) + "|"
+			if !x.globalSet[name] {
+				continue
+			}
+			if strings.HasPrefix(key, "E|") {
+				sb.WriteString(fmt.Sprintf("(assert (forall ((qa Int) (qi Int)) (! (select alloc0 (select (select %s qa) qi)) :pattern ((select (select %s qa) qi)))))\n", name, name))
+			} else if strings.HasPrefix(key, "F|") {
+				sb.WriteString(fmt.Sprintf("(assert (forall ((qp Int)) (! (select alloc0 (select %s qp)) :pattern ((select %s qp)))))\n", name, name))
+			}
+		}
+	}
 	for _, d := range x.specDecls {
 		sb.WriteString(d)
 		sb.WriteByte('\n')
 	}
 	for _, a := range x.axiomTerms {
+		sb.WriteString("(assert " + a + ")\n")
+	}
+	for _, a := range x.lemmaTerms {
 		sb.WriteString("(assert " + a + ")\n")
 	}
 	// distinct string constants
@@ -684,6 +754,12 @@ func (e *Engine) VerifyFunction(fc *FuncContract) *FuncResult {
 		res.Aborted = "function has no body"
 		return res
 	}
+	if fc.Pure {
+		if why := e.impure(fn); why != "" {
+			res.Aborted = "contract says pure but the function " + why
+			return res
+		}
+	}
 	x := newExec(e, fn, fc)
 	x.fnKey = key
 	x.loopHeads, x.loopBody = x.analyzeLoops(fn)
@@ -722,8 +798,22 @@ func (e *Engine) VerifyFunction(fc *FuncContract) *FuncResult {
 		x.axiomTerms = append(x.axiomTerms, x.evalBool(env, ax))
 		x.axiomNames = append(x.axiomNames, ax.Label+": "+ax.Src)
 	}
+	for _, ln := range fc.Uses {
+		found := false
+		for _, lem := range e.cs.Lemmas {
+			if lem.Name == ln {
+				x.lemmaTerms = append(x.lemmaTerms, x.lemmaAxiom(lem))
+				x.axiomNames = append(x.axiomNames, "lemma "+ln+" (proved separately as obligation "+pkgShort(lem.PkgPath)+".lemma."+ln+"#lemma)")
+				found = true
+			}
+		}
+		if !found {
+			res.Aborted = "contract uses unknown lemma " + ln
+			return res
+		}
+	}
 	pkg := fn.Pkg.Pkg
-	env := &Env{x: x, st: st, old: st, names: x.params, pkg: pkg, pkgPath: pkg.Path()}
+	env := &Env{x: x, st: st, old: st, names: x.params, pkg: pkg, pkgPath: pkg.Path(), dropGuards: true}
 	for _, r := range fc.Requires {
 		st.assume(x.evalBool(env, r))
 	}
@@ -745,6 +835,16 @@ func (e *Engine) VerifyFunction(fc *FuncContract) *FuncResult {
 		}
 		names := cloneNames(x.params)
 		bindResults(names, sig, results)
+		if fc.Pure && len(results) == 1 && results[0].K == KLeaf {
+			// the result is, by the syntactic purity check, a function of the arguments: name it
+			var terms []string
+			for _, p := range fn.Params {
+				terms = append(terms, x.flatten(x.params[p.Name()])...)
+			}
+			name := fmt.Sprintf("pure_%s_0_0", smtName(fc.PkgPath+"."+fc.Key))
+			x.globalDecl(name, fmt.Sprintf("(declare-fun %s (%s) %s)", name, strings.TrimSpace(strings.Repeat("Int ", len(terms))), sortOf(results[0].T)))
+			s.assume(fmt.Sprintf("(= %s (%s %s))", results[0].Term, name, strings.Join(terms, " ")))
+		}
 		penv := &Env{x: x, st: s, old: x.entry, names: names, pkg: pkg, pkgPath: pkg.Path(), proving: true, fn: fn, atBlock: s.curBlock, localsAfterNames: true}
 		for _, en := range fc.Ensures {
 			g := x.evalBool(penv, en)
@@ -755,8 +855,25 @@ func (e *Engine) VerifyFunction(fc *FuncContract) *FuncResult {
 		if fc.AssignsNone || len(fc.Assigns) > 0 {
 			x.frameObligations(s)
 		}
+		// vacuity probe: some returning path must be satisfiable (contradictory callee contracts would make all of them unsat)
+		if x.retCovers < 400 {
+			x.retCovers++
+			cov := &Obligation{Name: key + "#cover:return", Func: key, Kind: "cover", Src: "a returning path is satisfiable", Goal: "false", Trace: strings.Join(s.trace, " ")}
+			cov.Script = x.script(s, "false")
+			x.retCoverCands = append(x.retCoverCands, cov)
+		}
 		x.pathDone()
 	})
+	// vacuity probes on returning paths: up to 6, spread evenly over the explored paths
+	if n := len(x.retCoverCands); n > 0 {
+		k := 6
+		if n < k {
+			k = n
+		}
+		for i := 0; i < k; i++ {
+			x.obls = append(x.obls, x.retCoverCands[i*n/k])
+		}
+	}
 	res.Obls = x.obls
 	res.Paths = x.paths
 	res.Aborted = x.aborted
@@ -787,7 +904,7 @@ func (x *Exec) frameObligations(st *State) {
 	pkg := x.fn.Pkg.Pkg
 	for _, a := range x.fc.Assigns {
 		if ce, ok := a.Expr.(*ast.CallExpr); ok && identName(ce.Fun) == "all" {
-			if k, _ := x.eng.allKey(pkg.Path(), ce); k != "" {
+			for k := range x.eng.allKeysOf(pkg.Path(), ce) {
 				allKeys[k] = true
 			}
 			continue
@@ -795,6 +912,10 @@ func (x *Exec) frameObligations(st *State) {
 		if id, ok := a.Expr.(*ast.Ident); ok {
 			if _, isG := x.eng.cs.Ghosts[id.Name]; isG {
 				ghostOK[id.Name] = true
+				continue
+			}
+			if id.Name == "syncmaps" {
+				allKeys["MD|sync.Map"], allKeys["MV|sync.Map|$tag"], allKeys["MV|sync.Map|$val"] = true, true, true
 				continue
 			}
 		}
@@ -918,4 +1039,56 @@ func splitAnd(t string) []string {
 		parts = append(parts, body[start:])
 	}
 	return parts
+}
+
+// impure: "" if fn is syntactically a deterministic function of its scalar arguments
+// (no heap reads or writes, only calls to functions in pure packages or with pure contracts).
+func (e *Engine) impure(fn *ssa.Function) string {
+	for _, p := range fn.Params {
+		if !isLeafType(p.Type()) || sortOf(p.Type()) == "" {
+			return "takes a composite parameter"
+		}
+		if _, isP := p.Type().Underlying().(*types.Pointer); isP {
+			return "takes a pointer parameter"
+		}
+	}
+	for _, b := range fn.Blocks {
+		for _, ins := range b.Instrs {
+			switch in := ins.(type) {
+			case *ssa.Store:
+				if kind, _, _, ok := staticLoc(in.Addr); !ok || kind != "" {
+					return "writes the heap"
+				}
+			case *ssa.UnOp:
+				if in.Op == token.MUL {
+					if kind, _, _, ok := staticLoc(in.X); !ok || kind != "" {
+						return "reads the heap"
+					}
+				}
+				if in.Op == token.ARROW {
+					return "receives from a channel"
+				}
+			case *ssa.Call:
+				if in.Call.IsInvoke() {
+					return "calls an interface method"
+				}
+				if _, isB := in.Call.Value.(*ssa.Builtin); isB {
+					continue
+				}
+				c := in.Call.StaticCallee()
+				if c == nil {
+					return "makes a dynamic call"
+				}
+				if fc := e.contractOf(c); fc != nil && fc.Pure {
+					continue
+				}
+				if !purePkgs[pkgPathOf(c)] || c.Name() == "Now" || c.Name() == "Since" {
+					return "calls " + c.String()
+				}
+			case *ssa.Go, *ssa.Select, *ssa.Send, *ssa.MapUpdate, *ssa.Lookup, *ssa.Range, *ssa.MakeMap:
+				return "uses maps, channels or goroutines"
+			}
+		}
+	}
+	return ""
 }
